@@ -14,8 +14,8 @@ DRIVER = "Driver/C25.lean"
 OBLIGATIONS = ["NiftyVerif.C25." + t for t in (
     "crash_safe_all", "crash_safe_all_single", "marker_implies_complete", "uninterrupted_all", "natSys_lawful",
     "asFound_marker_truncated", "asFound_marker_before_history", "asFound_marker_before_minisanity_history",
-    "asFound_latest_in_place", "latest_window_witness", "resume_correct_latest", "latest_outside_window_good",
-    "crash_safe_latest_partial")]
+    "asFound_latest_in_place", "atomicOnly_latest_window_witness", "crash_safe_latest", "crash_safe_latest_single",
+    "marker_implies_complete_latest")]
 RULE = ("case = (configuration incl. save strategy, kill points of successive runs, then an unkilled resume); ALL single "
         "kill points of the MODEL's byte-granular operation sequence (every op boundary and every position inside a "
         "write) plus random double kills are mapped to the real run and executed on the real driver with simulated "
@@ -581,7 +581,7 @@ def _session_chunks(ctx, cfg, scenarios, nsess, extra=None):
 def _run_cfg(ctx, cfg):
     n, r0, strat = cfg["n"], cfg["r0"], cfg["strategy"]
     nsamp = 2 * cfg["n_samples"]
-    protos = ("repaired", "asFound")
+    protos = ("repaired", "atomicOnly", "asFound")
     base = dict(strategy=strat, total=n, nsamp=nsamp)
     mo = dict(zip(protos, ctx.model(DRIVER, [dict(op="ops", proto=p, resume=r0, **base) for p in protos])))
     # phase A: reference run (which protocol does the code follow?)
@@ -602,7 +602,7 @@ def _run_cfg(ctx, cfg):
     _tv(ctx, 1)
     ctx.compare(case0, dict(coarse=real_coarse), dict(coarse=mo["repaired"]["coarse"]),
                 note=f"[{strat}] op sequence of the real uninterrupted run vs model (repaired protocol)"
-                     + (" — the real sequence equals the model of the AS-FOUND protocol" if proto == "asFound" else ""))
+                     + (f" — the real sequence equals the model of the protocol {proto}" if proto not in ("repaired", None) else ""))
     ctx.stat(f"{strat}:real-protocol={proto}")
     if ref["res"]["iterations"] != n or ref["res"]["n_samples"] != nsamp:
         ctx.disagree(case0, ref["res"], dict(iterations=n, n_samples=nsamp), "uninterrupted run: iterations / samples")
@@ -665,13 +665,13 @@ def _run_cfg(ctx, cfg):
         modl = dict(stages=[dict(files=st["files"], coarse=st["coarse"], outcome=out_model(st["outcome"]))
                             for st in sim["stages"]][:len(sc["stages"])])
         strict = m_ok and all(out_model(st["outcome"]) in ("killed", "ok") for st in sim["stages"])
-        if strict or proto == "asFound":
+        if strict or proto != "repaired":
             impl["final"] = dict(outcome=out_real(fin), coarse=fin["coarse"], files=fin["files"])
             modl["final"] = dict(outcome=out_model(mfin["outcome"]), coarse=mfin["coarse"], files=mfin["files"])
         if not strict:
             # inside a failure window only the first killed directory is exact in the model
             impl["stages"], modl["stages"] = impl["stages"][:1], modl["stages"][:1]
-            if proto == "asFound" and out_model(mfin["outcome"]) == "wrong":
+            if proto != "repaired" and out_model(mfin["outcome"]) == "wrong":
                 impl.pop("final"), modl.pop("final")
         ctx.compare(case, impl, modl, note=f"[{strat}] directory after each kill / outcome / resumed run: real vs model",
                     nontrivial=0 < ks[0] < nfine)
